@@ -213,3 +213,11 @@ Definition orelse (o : option Z) (d : Z) : Z := match o with Some a => a | None 
 Definition cpu_count_model (os_raw aff cg loky_env : option Z) : Z :=
   let os := os_count os_raw in
   Z.max (Z.min os (Z.min (Z.min (orelse aff os) (orelse cg os)) (orelse loky_env os))) 1.
+
+(* cpu_count(only_physical_cores=True): a restrictive user setting (affinity, cgroup, LOKY_MAX_CPU_COUNT below the machine's
+   CPU count) is respected first; otherwise the physical-core count when it is known (phys), else the logical count *)
+Definition cpu_user_model (os_raw aff cg loky_env : option Z) : Z :=
+  let os := os_count os_raw in Z.min (Z.min (orelse aff os) (orelse cg os)) (orelse loky_env os).
+Definition cpu_count_physical_model (os_raw aff cg loky_env phys : option Z) : Z :=
+  if cpu_user_model os_raw aff cg loky_env <? os_count os_raw then Z.max (cpu_user_model os_raw aff cg loky_env) 1
+  else match phys with Some p => p | None => cpu_count_model os_raw aff cg loky_env end.
